@@ -12,7 +12,9 @@ package main
 //     stderr and outlives it, like an ssh ControlMaster helper;
 //   - a Write that is blocked on a full stdin pipe (agent not reading) at the
 //     moment Close is called;
-//   - a second Close issued while the first is still waiting for the agent.
+//   - a second Close issued while the first is still waiting for the agent;
+//   - an agent that closes its stdout early but keeps running, with the stream
+//     read to io.EOF before Close, or by a Read concurrent with Close.
 //
 // Every Close() must return (control-relative bound, DESIGN §1) and, when it
 // returns, the agent process must be gone. Close latency is recorded, never judged.
@@ -20,6 +22,7 @@ package main
 import (
 	"bytes"
 	"fmt"
+	"io"
 	"os"
 	"os/exec"
 	"os/signal"
@@ -86,6 +89,12 @@ func fakeAgentMain() {
 		}()
 	}
 	os.Stdout.WriteString("READY\n")
+	if os.Getenv("VERIF_C35_CLOSE_STDOUT") == "1" {
+		// prints a line and closes its stdout, but keeps running: a Read on the stream sees io.EOF
+		os.Stdout.WriteString("BYE\n")
+		os.Stdout.Close()
+		note("CLOSED-STDOUT")
+	}
 	switch behaviour {
 	case "self":
 		time.Sleep(delay)
@@ -131,6 +140,7 @@ type c35Case struct {
 	Grandchild    bool   `json:"descendant_holds_stderr"`
 	BlockedWrite  bool   `json:"write_blocked_on_full_pipe"`
 	SecondCloseMs int    `json:"second_close_after_ms"` // -1: a single Close
+	CloseStdout   string `json:"agent_closes_stdout"`   // "" | "read-to-eof-before-close" | "concurrent-read"
 }
 
 type lockedBuffer struct {
@@ -221,7 +231,7 @@ func c35() {
 		c.WriteBytes = []int{0, 1, 100, 5000}[rng.Intn(4)]
 		c.CloseAtStart = rng.Intn(10) == 0
 		// the three extra dimensions cycle deterministically so that every behaviour meets each of them
-		block := (i / 4) % 6
+		block := (i / 4) % 8
 		c.Grandchild = block == 1 || block == 4 || rng.Intn(6) == 0
 		if (block == 2 || block == 4) && c.Behaviour != "stdin" {
 			// the agent never reads its stdin; "exits when stdin closes" cannot be combined with that
@@ -229,6 +239,14 @@ func c35() {
 		}
 		if block == 3 || block == 5 || rng.Intn(8) == 0 {
 			c.SecondCloseMs = []int{0, 20, 300, 1100, 1900}[rng.Intn(5)] + rng.Intn(50)
+		}
+		if !c.BlockedWrite && (block == 6 || block == 7 || rng.Intn(10) == 0) {
+			// the agent closes its stdout right after announcing itself and keeps running
+			c.CloseStdout, c.WriteBytes, c.CloseAtStart = "read-to-eof-before-close", 0, false
+			c.PendingRead = false
+			if block == 7 || (block != 6 && rng.Intn(2) == 0) {
+				c.CloseStdout, c.PendingRead = "concurrent-read", true
+			}
 		}
 		cases[i] = c
 	}
@@ -250,6 +268,9 @@ func c35() {
 		}
 		if c.BlockedWrite {
 			env = append(env, "VERIF_C35_NOREAD=1")
+		}
+		if c.CloseStdout != "" {
+			env = append(env, "VERIF_C35_CLOSE_STDOUT=1")
 		}
 		cmd.Env = env
 		stderr := &lockedBuffer{}
@@ -318,6 +339,29 @@ func c35() {
 				}
 			}
 		}
+		sawEOF := false
+		if c.CloseStdout == "read-to-eof-before-close" && ready {
+			// read the stream to its end BEFORE Close is called
+			eofCh := make(chan error, 1)
+			go func() {
+				b := make([]byte, 64)
+				for {
+					if _, err := st.Read(b); err != nil {
+						eofCh <- err
+						return
+					}
+				}
+			}()
+			select {
+			case err := <-eofCh:
+				if err == io.EOF {
+					sawEOF = true
+					r.Count("stdout_eof_before_close:"+c.Behaviour, 1)
+				}
+			case <-time.After(20 * time.Second):
+				r.Count("stdout_eof_not_seen_before_close", 1)
+			}
+		}
 		if c.TermDelayMs > 0 {
 			st.SetTerminationDelay(time.Duration(c.TermDelayMs) * time.Millisecond)
 		}
@@ -327,6 +371,9 @@ func c35() {
 				b := make([]byte, 16)
 				for {
 					if _, err := st.Read(b); err != nil {
+						if err == io.EOF && c.CloseStdout != "" {
+							r.Count("stdout_eof_in_concurrent_read:"+c.Behaviour, 1)
+						}
 						break
 					}
 				}
@@ -389,7 +436,7 @@ func c35() {
 						continue
 					}
 					state, _, alive := procState(pid)
-					r.Violation(map[string]string{"rule": "close-did-not-return", "behaviour": c.Behaviour, "descendant": fmt.Sprint(c.Grandchild), "blocked_write": fmt.Sprint(writeBlocked), "close_call": fmt.Sprint(k + 1)},
+					r.Violation(map[string]string{"rule": "close-did-not-return", "behaviour": c.Behaviour, "descendant": fmt.Sprint(c.Grandchild), "blocked_write": fmt.Sprint(writeBlocked), "stdout_closed": fmt.Sprint(c.CloseStdout != ""), "close_call": fmt.Sprint(k + 1)},
 						fmt.Sprintf("Close() call %d of %d on the stream of a %q agent did not return within %v (heartbeat max gap in that window %v; agent process alive=%v state=%s; descendant holding stderr=%v; write blocked=%v)", k+1, nClose, c.Behaviour, time.Since(t0).Round(time.Second), gap, alive, state, c.Grandchild, writeBlocked),
 						map[string]any{"case": c, "agent_stderr": stderr.String()})
 					hung = true
@@ -484,7 +531,7 @@ func c35() {
 			r.Count("double_close:"+c.Behaviour, 1)
 		}
 		r.Distinct(strings.Join([]string{c.Behaviour, how, strings.Join(marks, "+"), bucket(c.DelayMs, 0, 100, 850, 1500), bucket(c.TermDelayMs, 0, 100), fmt.Sprint(c.PendingRead), fmt.Sprint(ready),
-			fmt.Sprint(gcPid > 0), fmt.Sprint(writeBlocked), bucket(c.SecondCloseMs, -1, 100, 1000)}, "|"))
+			fmt.Sprint(gcPid > 0), fmt.Sprint(writeBlocked), bucket(c.SecondCloseMs, -1, 100, 1000), c.CloseStdout, fmt.Sprint(sawEOF)}, "|"))
 		latMu.Lock()
 		latencies[c.Behaviour] = append(latencies[c.Behaviour], returns[0].Latency.Seconds())
 		latMu.Unlock()
@@ -505,7 +552,8 @@ func c35() {
 	r.Note("heartbeat_max_gap_ms", hb.Max().Milliseconds())
 	// liveness of the sensors
 	if r.Violations() == 0 {
-		for _, need := range []string{"ended:stubborn:signal:killed", "descendant:stubborn", "descendant:self", "blocked_write:stubborn", "blocked_write:term", "double_close:stubborn", "close_call_2_returns"} {
+		for _, need := range []string{"ended:stubborn:signal:killed", "descendant:stubborn", "descendant:self", "blocked_write:stubborn", "blocked_write:term", "double_close:stubborn", "close_call_2_returns",
+			"stdout_eof_before_close:stubborn", "stdout_eof_before_close:term", "stdout_eof_before_close:self", "stdout_eof_before_close:stdin", "stdout_eof_in_concurrent_read:stubborn", "stdout_eof_in_concurrent_read:term"} {
 			if r.Counter(need) == 0 {
 				r.Inconclusive("workload dimension never reached: " + need)
 				fmt.Println("ERROR: C35 never observed " + need)
